@@ -66,7 +66,14 @@ pub fn generate(rng: &mut Rng, _focus: &str, _thorough: bool) -> Case {
     let masses = [1000.0, 2000.0, 5000.0, 12_500.0, 195_000.0, 100_000.0];
     let is_comp = matches!(target, Target::Fc | Target::Gen | Target::Res);
     let init_mass = if rng.chance(0.35) { None } else { Some(*rng.pick(&masses)) };
-    let init_spec = if !is_comp || rng.chance(0.4) { None } else { Some(*rng.pick(&[250.0, 500.0, 1000.0, 4000.0])) };
+    // components: specific power / energy; locomotives: a deliberate error factor on force_max in the file
+    let init_spec = if !is_comp {
+        if matches!(target, Target::Loco { .. }) && rng.chance(0.12) { Some(1.2) } else { None }
+    } else if rng.chance(0.4) {
+        None
+    } else {
+        Some(*rng.pick(&[250.0, 500.0, 1000.0, 4000.0]))
+    };
     let init_mu = if is_comp || rng.chance(0.4) { None } else { Some(*rng.pick(&[0.25, 0.3, 0.35])) };
     let n_units = match target {
         Target::Consist { n } => n,
@@ -171,11 +178,17 @@ impl LocoModel {
             (Derived::None, Some(m)) => Ok(Some(m)),
         }
     }
+    /// "when both are known": the *reported* mass counts, i.e. also one derived from the constituent fields
     fn force_consistent(&self) -> bool {
-        match (self.mu, self.mass) {
-            (Some(mu), Some(m)) => almost_eq(self.fmax, mu * m * G),
+        match (self.mu, self.mass_get()) {
+            (Some(mu), Ok(Some(m))) => almost_eq(self.fmax, mu * m * G),
             _ => true,
         }
+    }
+    /// the ...ToNone options make the mass unknown: the constituent fields go as well
+    fn mass_to_none(&mut self) {
+        self.mass = None;
+        self.derived = Derived::None;
     }
     /// None = the update must be rejected (and nothing may change)
     fn set_mass(&self, new: Option<f64>, side: u8) -> Option<LocoModel> {
@@ -190,9 +203,8 @@ impl LocoModel {
             Some(x) => {
                 if let Derived::Some(d) = m.derived {
                     if d != x {
-                        // constituent mass fields are set to None to match; with baseline and ballast still
-                        // given the derived mass cannot be computed any more
-                        m.derived = Derived::Broken;
+                        // constituent mass fields (baseline, ballast, components) are set to None to match
+                        m.derived = Derived::None;
                     }
                 }
                 x
@@ -228,7 +240,7 @@ impl LocoModel {
             }
             _ => {
                 m.mu = Some(mu);
-                m.mass = None;
+                m.mass_to_none();
                 Some(m)
             }
         }
@@ -244,8 +256,10 @@ impl LocoModel {
                 Some(r)
             }
             1 => {
+                // leaves the mass unchanged; an unreadable mass cannot be resolved
+                let mass = m.mass_get().ok()?;
                 m.fmax = f;
-                m.mu = m.mass.map(|x| f / (x * G));
+                m.mu = mass.map(|x| f / (x * G));
                 Some(m)
             }
             2 => {
@@ -255,13 +269,13 @@ impl LocoModel {
             }
             3 => {
                 m.fmax = f;
-                m.mass = None;
+                m.mass_to_none();
                 Some(m)
             }
             _ => {
                 m.fmax = f;
                 m.mu = None;
-                m.mass = None;
+                m.mass_to_none();
                 Some(m)
             }
         }
@@ -397,12 +411,12 @@ fn check_loco(ctx: &mut Ctx, what: &str, l: &Locomotive, m: &LocoModel) {
     }
 }
 
-fn build_loco(bel: bool, derived: bool, mass: Option<f64>, mu: Option<f64>) -> anyhow::Result<(Locomotive, LocoModel)> {
+fn build_loco(bel: bool, derived: bool, mass: Option<f64>, mu: Option<f64>, f_scale: f64) -> anyhow::Result<(Locomotive, LocoModel)> {
     let base = if bel { Locomotive::default_battery_electric_loco() } else { Locomotive::default() };
     let fmax = 667.2e3;
     // force_max must agree with mu and mass when both are given
     let fmax_eff = match (mu, mass) {
-        (Some(a), Some(b)) => a * b * G,
+        (Some(a), Some(b)) => a * b * G * f_scale,
         _ => fmax,
     };
     if !derived {
@@ -429,7 +443,7 @@ fn build_loco(bel: bool, derived: bool, mass: Option<f64>, mu: Option<f64>) -> a
     set(&mut v, "mu", yv(mu));
     let eff_mass = Some(total);
     let fmax_eff = match (mu, eff_mass) {
-        (Some(a), Some(b)) if mass.is_some() => a * b * G,
+        (Some(a), Some(b)) => a * b * G * f_scale,
         _ => fmax,
     };
     set(&mut v, "force_max", yv(Some(fmax_eff)));
@@ -481,8 +495,17 @@ pub fn execute(case: &Case, ctx: &mut Ctx) {
                 }
             }
         }
-        Target::Loco { bel, derived } => match build_loco(*bel, *derived, case.init_mass, case.init_mu) {
+        Target::Loco { bel, derived } => match build_loco(*bel, *derived, case.init_mass, case.init_mu, case.init_spec.unwrap_or(1.0)) {
             Ok((l, m)) => {
+                // a file whose force_max disagrees with its mu and (stored or derived) mass loads, but the
+                // getters must refuse to report from it
+                if !m.force_consistent() {
+                    ctx.hit("fault.update.reject.inconsistent_file");
+                    if l.force_max().is_ok() || l.mu().is_ok() {
+                        ctx.violate("C20", "mass_algebra", "inconsistent file is not reported from", format!("force_max() = {:?}, mu() = {:?} although force_max in the file is not mu * mass * g (reference {m:?})", l.force_max().map(|x| x.value).ok(), l.mu().ok()));
+                    }
+                    return;
+                }
                 locos.push(m);
                 Obj::Loco(Box::new(l))
             }
@@ -494,7 +517,7 @@ pub fn execute(case: &Case, ctx: &mut Ctx) {
         Target::Consist { n } => {
             let mut v = vec![];
             for k in 0..*n {
-                match build_loco(k % 2 == 1, false, case.init_mass, case.init_mu) {
+                match build_loco(k % 2 == 1, false, case.init_mass, case.init_mu, 1.0) {
                     Ok((l, m)) => {
                         v.push(l);
                         locos.push(m);
@@ -539,6 +562,11 @@ pub fn execute(case: &Case, ctx: &mut Ctx) {
                 // a state the setters accepted must load (init() re-checks mass consistency)
                 let consistent = match &obj {
                     Obj::Fc(_) | Obj::Gen(_) | Obj::Res(_) => comp.mass_get().is_ok(),
+                    // a consist reports its mass only when all of its units know theirs or none does
+                    Obj::Con(_) => {
+                        let ms: Vec<Result<Option<f64>, ()>> = locos.iter().map(|m| m.mass_get()).collect();
+                        ms.iter().all(|m| m.is_ok()) && (ms.iter().all(|m| matches!(m, Ok(None))) || ms.iter().all(|m| matches!(m, Ok(Some(_)))))
+                    }
                     _ => locos.iter().all(|m| m.mass_get().is_ok()),
                 };
                 match reloaded {
